@@ -27,5 +27,5 @@ CONSTANTS
   MaxOps = 1
   EmitMode = "state"
 VIEW View
-INVARIANTS TypeOK C31Arith ReducePreserves ResetImplIsRefOrKF SelfNoReset EmitState
+INVARIANTS TypeOK C31Arith ReducePreserves ResetImplIsRef SelfNoReset EmitState
 CHECK_DEADLOCK FALSE
